@@ -12,4 +12,5 @@ let all : (string * (Model.event list -> bool)) list = [
   ("C10", Model.chk_C10);
   ("C05", Model.chk_C05);
   ("C16", Model.chk_C16);
+  ("C09q", Model.chk_C09q);
 ]
